@@ -274,6 +274,10 @@ impl ClientLoop {
         request: &mut Request,
         tx_id: TxId,
     ) -> Result<(), RequestError> {
+        // on a serial line the silence between two frames comes first: it is not part of the
+        // time this request is given, and what arrives during it arrives before the request
+        io.wait_inter_frame_delay().await;
+
         // frames received while no request was outstanding are not replies to this one:
         // drop whatever has already arrived before transmitting
         loop {
